@@ -122,20 +122,26 @@ def tempFd : TmpCfg → Nat
   | .noTmp => 0
   | _ => 2
 
-/-- The calls `shfmt -w` makes for one regular file whose formatted bytes `new` differ:
+/-- The calls `shfmt -w` makes for one regular file whose formatted bytes `new` differ (the
+    read-only open/read/close of the file itself is left out): Lstat (filepath.WalkDir),
     Lstat (formatBytes), Lstat (NewPendingFile, permission copy), the probe, then the pending file:
     create with the file's permissions (subject to the umask), fstat, fchmod only if the umask took
     bits away, one write, fsync, close, Lstat (os.Rename), rename. -/
 def writeScript (c : TmpCfg) (perm umask : Nat) (new : Bytes) : List Op :=
-  [.lstat .target, .lstat .target] ++ probe c ++
+  [.lstat .target, .lstat .target, .lstat .target] ++ probe c ++
   [.openExcl .temp perm, .fstat (tempFd c)] ++
   (if maskMode perm umask ≠ perm then [.fchmod (tempFd c) perm] else []) ++
   [.write (tempFd c) new, .fsync (tempFd c), .close (tempFd c), .lstat .target, .rename .temp .target]
 
-/-- What `shfmt -w` does to a path whose `Lstat` says `kind`: anything but a regular file is
-    refused (`refusing to atomically replace …`) before any call that could change the directory. -/
+/-- What `shfmt -w <path>` does to a path whose `Lstat` says `kind`.  A symlink (to a regular
+    file) is read through the link and refused on formatBytes' own Lstat (`refusing to atomically
+    replace …`); a FIFO, directory or other non-regular file is decided on WalkDir's Lstat (a FIFO is
+    never opened, a directory is walked).  Neither makes a call that could change the directory. -/
 def shfmtW (kind : FKind) (c : TmpCfg) (perm umask : Nat) (new : Bytes) : List Op :=
-  if kind = .reg then writeScript c perm umask new else [.lstat .target]
+  match kind with
+  | .reg => writeScript c perm umask new
+  | .symlink => [.lstat .target, .lstat .target]
+  | _ => [.lstat .target]
 
 /-- Initial state: only the target exists (inode 0), nothing open. -/
 def init (old : Bytes) (perm umask : Nat) (kind : FKind := .reg) : FS :=
